@@ -230,7 +230,11 @@ class SubclassJSONSerializer:
             raise ClassNotDeserializableError(target_cls)
 
         if issubclass(target_cls, SubclassJSONSerializer):
-            if target_cls._from_json.__func__ is SubclassJSONSerializer._from_json.__func__:
+            from_json_of_target = getattr(target_cls, "_from_json", None)
+            if not callable(from_json_of_target) or (
+                getattr(from_json_of_target, "__func__", from_json_of_target)
+                is SubclassJSONSerializer._from_json.__func__
+            ):
                 # the base class itself, or a subclass that does not say how it is created from json
                 raise ClassNotDeserializableError(target_cls)
             return target_cls._from_json(data, **kwargs)
